@@ -10,7 +10,7 @@ Reqs == {R("Open", 1), [R("Open", 1) EXCEPT !.sync = TRUE], R("Close", 1), R("Dr
          [R("DeletePrefix", 1) EXCEPT !.e = E(<<>>, 3, 0)],
          R("GetMany", 1), R("SyncInit", 1), R("GetState", 1), R("Subscribe", 1),
          [R("Open", 2) EXCEPT !.sync = TRUE], [R("InsertRemote", 2) EXCEPT !.e = E(<<1>>, 1, 1)], R("Close", 2),
-         [R("SetPolicy", 1) EXCEPT !.pol = OnlyZero], R("GetPolicy", 1), [R("HasNews", 1) EXCEPT !.report = << <<1, 2>> >>]}
+         [R("SetPolicy", 1) EXCEPT !.pol = OnlyZero], R("GetPolicy", 1)}
 Progs3 == {<<a, b, c>> : a \in Reqs, b \in Reqs, c \in Reqs}
 Progs2 == {<<a, b>> : a \in Reqs, b \in Reqs}
 UA == {}
